@@ -194,6 +194,8 @@ def fmt_atom(a):
         return 'sum[%s](%s)' % (a[1], fmt_key(a[2]))
     if k == 'poly':
         return '(%s)' % fmt_key(a[1])
+    if k == 'reduce':
+        return '%s[%s](%s)' % (a[1], a[2], fmt_key(a[3]))
     return str(a)
 
 
@@ -462,6 +464,9 @@ def subst_atom(a, f):
     if k == 'sum':
         body = subst(from_key(a[2]), f)
         return mk_sum(a[1], body)
+    if k == 'reduce':
+        body = subst(from_key(a[3]), f)
+        return TOP if body is None else Poly.atom(('reduce', a[1], a[2], body.key()))
     return Poly.atom(a)
 
 
@@ -1272,6 +1277,16 @@ class SymVal:
                 v = mk_sum('k', e)
                 if v is not None:
                     st[d] = v
+            return
+        if name == 'fold' and args and isinstance(args[0], It) and len(args) >= 3 and 'const' in t['args'][2] and \
+                isinstance(t['args'][2]['const'].get('fn'), dict):
+            # fold(init, f64::max) / fold(init, f64::min): the extremum over all positions, and the initial value
+            fpath = t['args'][2]['const']['fn'].get('path', '')
+            fname = fpath.rsplit('::', 1)[-1]
+            init = scal(1)
+            e = self._deref_value(st, body, args[0].elem)
+            if fpath.startswith(F64) and fname in ('max', 'min') and isinstance(e, Poly) and init is not None:
+                st[d] = app(fname, [init, Poly.atom(('reduce', fname, 'k', e.key()))])
             return
         if name == 'fold' and args and isinstance(args[0], It) and len(args) >= 3:
             init = scal(1)
